@@ -225,6 +225,8 @@ def parse_lexer(path):
         if m:
             st, pat = m.group(1), m.group(2)
             states.setdefault(st, [])
+        if pat == '<<EOF>>':
+            continue                   # end-of-input rules match no character: they do not take part in the framing (C18's lexer-states-total looks at them)
         states[st].append((pat, parse_pattern(pat), act))
     return states
 
